@@ -232,7 +232,8 @@ def history_check(ctx, prop):
     for h in dag_rule_histories(rng, sizes(tier, 120, 2500)):
         hs.append(h)
         mls.append(model_lines_for(h))
-    for h in twin_histories(rng, sizes(tier, 60, 800)) + wide_histories(rng, sizes(tier, 30, 400)):
+    for h in twin_histories(rng, sizes(tier, 60, 800)) + wide_histories(rng, sizes(tier, 30, 400)) \
+            + widening_histories(rng, sizes(tier, 40, 500)) + budget_histories(rng, sizes(tier, 3, 20)):
         hs.append(h)
         mls.append(model_lines_for(h))
     res = run_histories(hs)
@@ -370,6 +371,49 @@ def wide_histories(rng, n):
     return out
 
 
+def widening_histories(rng, n):
+    """the user's own expression contains a redex whose rewrite ENLARGES the domain (e^(ln x) -> x, 1/(1/x) -> x,
+    (sqrt x)^2 -> x) inside a sum or product; it is asked outside its domain, then some derivative object over it is
+    simplified, then it is asked again: a simplifier that edits the user's nodes in place makes the second answer
+    a number"""
+    x, y = '(V 2)', '(V 3)'
+    redex = ['(Exp (Log %s f4005bf0a8b145769) f4005bf0a8b145769)' % x, '(Recip (Recip %s))' % x, '(NthPow (NthRoot %s 2) 2)' % x,
+             '(NthPow (NthRoot %s 4) 4)' % x, '(Exp (Log %s f4000000000000000) f4000000000000000)' % x]
+    wraps = ['(Add %s (C i5))', '(Mul %s ' + y + ')', '(Add ' + y + ' %s (C i1))', '(Mul (C i2) %s (Add ' + y + ' (C i1)))',
+             '(Add %s (Sin ' + y + ') ' + x + ')']
+    roots = ['(Log (REF 0) f4005bf0a8b145769)', '(REF 0)', '(Mul ' + y + ' (REF 0))', '(Sin (REF 0))', '(NthPow (REF 0) 2)']
+    out = []
+    for _ in range(n):
+        inner = rng.choice(wraps) % rng.choice(redex)
+        pts = ['[2=%s 3=%s]' % (sx.num_sx(rng.choice([-3, -0.5, 0, -1])), sx.num_sx(rng.choice([2, 1.5, 3]))),
+               '[2=%s 3=%s]' % (sx.num_sx(rng.choice([2, 1.5, 4])), sx.num_sx(rng.choice([2, 0.5])))]
+        v = rng.choice([2, 3])
+        early = rng.randint(0, 1)
+        ops = [['at', 1, 0], ['mkpartial', 0, 1, v, 0], ['pat', 0, 0], ['pat', 0, 1],
+               ['mkpartial', 1, 1, v, 1], ['pexpr', 1], ['mkdiff', 2, 1, early], ['dfcompexpr', 2, v], ['norm', 1],
+               ['at', 1, 0], ['pat', 0, 0], ['located', 1, 0], ['at', 0, 0], ['dfat', 2, 0], ['mkpartial', 3, 1, v, 0], ['pat', 3, 0]]
+        out.append({'pool': [inner, rng.choice(roots)], 'points': pts, 'ops': ops})
+    return out
+
+
+def budget_histories(rng, n):
+    """a simplification that runs out of the step budget on a very wide sum whose LAST terms are objects shared with
+    small expressions; afterwards the small expressions are simplified: whatever the budget fallback leaves on the
+    nodes it never reached (flags, edits) shows in their answers"""
+    out = []
+    for _ in range(n):
+        N = rng.choice([150, 200, 240])
+        shared = ['(Sin (Minus (V 2) (C i%d)))' % (N + 1), '(NthPow (NthRoot (V 2) 3) 3)', '(Cos (Divide (V 2) (C i3)))']
+        terms = ' '.join('(Sin (Minus (V 2) (C i%d)))' % k for k in range(1, N))
+        big = '(Add %s (REF 0) (REF 1) (REF 2))' % terms
+        small = rng.choice(['(Mul (V 3) (REF 1))', '(Add (REF 0) (V 3))', '(Sin (REF 2))'])
+        pts = ['[2=%s 3=%s]' % (sx.num_sx(rng.choice([0, 1.5, -2])), sx.num_sx(2)), '[2=%s 3=%s]' % (sx.num_sx(0.5), sx.num_sx(3))]
+        ops = [['mkpartial', 0, 3, 2, 0], ['pexpr', 0], ['mkpartial', 1, 4, rng.choice([2, 3]), 0], ['pexpr', 1], ['pat', 1, 0],
+               ['mkpartial', 2, 0, 2, 0], ['pexpr', 2], ['norm', 1], ['at', 4, 0], ['norm', 2]]
+        out.append({'pool': shared + [big, small], 'points': pts, 'ops': ops})
+    return out
+
+
 def twin_children_histories(rng, n):
     """an n-ary node whose operands include the same composite term written out twice (equal, distinct objects,
     two or more levels above the variables), asked the same question at a first point, at a second, and at the first
@@ -441,7 +485,8 @@ def _expand_refs(s_, flat):
     return re.sub(r'\(REF (\d+)\)', lambda m: flat[int(m.group(1))], s_)
 
 
-def history_correspondence(ctx, rep, n, keep, maxlen=10, what='history', extra=None, disturb=(), partial_points=False):
+def history_correspondence(ctx, rep, n, keep, maxlen=10, what='history', extra=None, disturb=(), partial_points=False,
+                           exact=False):
     """histories restricted to the operation kinds in [keep] (plus the constructions they need); every
     operation's outcome against the pure model; a wrong kind or value is a concrete failing history.
     Operations of the kinds in [disturb] are executed too (they share objects and caches with the
@@ -469,7 +514,8 @@ def history_correspondence(ctx, rep, n, keep, maxlen=10, what='history', extra=N
     for h in (extra or []):
         hs.append(h)
         mls.append(model_lines_for(h))
-    for h in twin_children_histories(rng, max(6, n // 12)) + wide_histories(rng, max(4, n // 20)):
+    for h in twin_children_histories(rng, max(6, n // 12)) + wide_histories(rng, max(4, n // 20)) \
+            + widening_histories(rng, max(6, n // 12)):
         ml = model_lines_for(h)
         ops, m2 = [], []
         for op, l in zip(h['ops'], ml):
@@ -504,7 +550,7 @@ def history_correspondence(ctx, rep, n, keep, maxlen=10, what='history', extra=N
             rep.stats[what + '_operations'] += 1
             if st in ('disagree', 'error'):
                 oi_, om_ = core.parse_outcome(i), core.parse_outcome(m)
-                wrong = oi_[0] != om_[0]
+                wrong = oi_[0] != om_[0] or (exact and st == 'disagree')     # exact: bit-for-bit (C18), the model being bit-exact
                 if oi_[0] == om_[0] == 'VAL':
                     wrong = not core.close(oi_[1], om_[1], rel=1e-9, abs_=1e-12)
                 elif oi_[0] == om_[0] == 'VALS':
@@ -512,6 +558,8 @@ def history_correspondence(ctx, rep, n, keep, maxlen=10, what='history', extra=N
                                 for q in set(oi_[1]) | set(om_[1]))
                 elif oi_[0] == om_[0] == 'OTHER':
                     wrong = False
+                if exact and st == 'disagree':
+                    wrong = True
                 if wrong:
                     rep.oracle_failures.append({
                         'what': 'operation %d %s of a sequence over expressions sharing objects: implementation %s, model %s'
@@ -668,6 +716,30 @@ def check_C11(ctx):
         if info['warn'] == 'True':
             rep.stats['budget_fallback'] += 1
     rep.stats['worst_steps_over_size_squared_x1000'] = int(worst * 1000)
+    # the same driver under the interpreter's DEFAULT recursion limit (the harness raises it for deep trees): chains that
+    # need close to, or more than, the library's own step budget must end the same way - a form, or the warning fallback -
+    # and not in a RecursionError (a driver that spends a stack frame per step would)
+    deep = [e for e in exprs if 80 <= sx.size(e) <= 400][:sizes(tier, 6, 30)]
+    deep += gen.chains(rng, [2, 3], 70)[:4] + gen.chains(rng, [2], 82)[:3]
+    if deep:
+        bd = Batch()
+        di = [bd.add('STEPCOUNT %s' % sx.to_sx(e)) for e in deep]
+        bd.run(model=False)
+        old_env = dict(os.environ)
+        os.environ['VERIF_RECLIMIT'] = 'default'
+        try:
+            low = core.run_impl(bd.lines, hashseed=0)
+        finally:
+            os.environ.clear()
+            os.environ.update(old_env)
+        for k_, i in enumerate(di):
+            hi = bd.impl[i]
+            if hi.startswith(('ERROR', 'PYERR')):
+                continue
+            rep.stats['default_recursion_limit_cases'] += 1
+            if 'recursion' in low[k_].lower() and 'recursion' not in hi.lower():
+                rep.oracle_fail('under the default recursion limit the simplification ends in a RecursionError (%s) where it '
+                                'otherwise ends with %s' % (low[k_][:60], hi[:60]), bd, [i])
     # the form the implementation stops at must be rule-free: ask the model whether a step is still possible
     b2 = Batch()
     finals = []
@@ -1355,8 +1427,8 @@ def check_C18(ctx):
     rep.stats.update({'digest_' + k: 1 for k in set(digests.values())})
     # "the same expression and point always produce the same outcome": also on objects that were used before
     history_correspondence(ctx, rep, sizes(tier, 120, 2500),
-                           ('at', 'located', 'pat', 'dat', 'dfat', 'dfcompat', 'pexpr', 'dexpr', 'dfcompexpr'),
-                           maxlen=sizes(tier, 10, 24), what='sequence', disturb=())
+                           ('at', 'located', 'pat', 'dat', 'dfat', 'dfcompat', 'pexpr', 'dexpr', 'dfcompexpr', 'norm'),
+                           maxlen=sizes(tier, 10, 24), what='sequence', disturb=(), exact=True)
     return rep
 
 
